@@ -60,9 +60,14 @@ Theorem c14_merlin_format_keeps_columns : forall widths cols, Forall (fun c => ~
 Proof. exact merlin_format_keeps_columns. Qed.
 Print Assumptions c14_merlin_format_keeps_columns.
 
-Theorem c14_merlin_format_label_column : forall widths r, exists t, fmt_cols widths 0 ([] :: r) = 32 :: t.
+Theorem c14_merlin_format_label_column : forall widths r, r <> [] -> exists t, fmt_line widths ([] :: r) = 32 :: t.
 Proof. exact merlin_format_label_column. Qed.
 Print Assumptions c14_merlin_format_label_column.
+
+(* the line ends with its last column exactly as it is (blanks of its own included): nothing of it is trimmed and no padding follows *)
+Theorem c14_merlin_format_keeps_last_column : forall widths cols c, exists t, fmt_line widths (cols ++ [c]) = t ++ c.
+Proof. intros widths cols c. exact (merlin_format_keeps_last_column widths cols 0 c). Qed.
+Print Assumptions c14_merlin_format_keeps_last_column.
 
 (* --- token tables (generated from the source on every run) --- *)
 Theorem c14_applesoft_tables_inverse :
